@@ -775,3 +775,233 @@ Proof.
     + destruct Hrest as [_ [_ [_ [_ [_ [_ [_ [_ [_ Hlog]]]]]]]]]. rewrite <- Hlog. exact Hl.
     + intros e He. destruct (Hj e He) as [a [Ha [Hd Hp]]]. exists a. repeat split; assumption.
 Qed.
+
+(* ------------------------------------------------------------------------------------------ *)
+(* 4. Watcher, late-appointment path: add_appointment with the dispute already in the cache *)
+
+(* everything but the users (memory and table) *)
+Definition same_but_users (t t' : tower) : Prop :=
+  cfg t = cfg t' /\ gk_height t = gk_height t' /\ db_apps t = db_apps t' /\ db_trks t = db_trks t' /\
+  w_height t = w_height t' /\ w_cache t = w_cache t' /\ r_index t = r_index t' /\ car_height t = car_height t' /\
+  car_memo t = car_memo t' /\ reorged t = reorged t' /\ rpc_log t = rpc_log t'.
+
+Lemma add_update_appointment_spec t u uuid blen r t1 :
+  gk_add_update_appointment t u uuid blen = Ok r t1 ->
+  same_but_users t t1 /\ (r = None -> t1 = t).
+Proof.
+  unfold gk_add_update_appointment. destruct (gk_get t u) as [ui|]; [|discriminate].
+  match goal with |- context [if ?c then _ else _] => destruct c end; intros H; injection H as <- <-.
+  - split; [repeat split|discriminate].
+  - split; [repeat split|reflexivity].
+Qed.
+
+(* the appointments table after store_appointment(a) *)
+Definition store_row (apps : list app) (a : app) : list app :=
+  match find_app apps (app_uuid a) with
+  | Some _ => map (fun x => if uuid_eqb (app_uuid x) (app_uuid a) then a else x) apps
+  | None => apps ++ [a]
+  end.
+
+Lemma store_appointment_spec t a t' :
+  w_store_appointment t a = Ok tt t' -> t' = set_db_apps t (store_row (db_apps t) a).
+Proof.
+  unfold w_store_appointment, store_row, p_update_app, p_insert_app.
+  destruct (find_app (db_apps t) (app_uuid a)); [intros H; injection H as <-; reflexivity|].
+  destruct (amem (db_users t) (a_user a)); [intros H; injection H as <-; reflexivity|discriminate].
+Qed.
+
+Lemma find_app_map f apps u :
+  (forall x, app_uuid (f x) = app_uuid x) -> find_app (map f apps) u = option_map f (find_app apps u).
+Proof.
+  intros Hf. unfold find_app. induction apps as [|x apps IH]; cbn [map find]; [reflexivity|].
+  rewrite Hf. destruct (uuid_eqb (app_uuid x) u); [reflexivity|exact IH].
+Qed.
+
+Lemma find_app_app l1 l2 u :
+  find_app (l1 ++ l2) u = match find_app l1 u with Some x => Some x | None => find_app l2 u end.
+Proof.
+  unfold find_app. induction l1 as [|x l1 IH]; cbn [List.app find]; [reflexivity|].
+  destruct (uuid_eqb (app_uuid x) u); [reflexivity|exact IH].
+Qed.
+
+Lemma uuid_eqb_neq a b : uuid_eqb a b = false <-> a <> b.
+Proof.
+  split.
+  - intros H He. apply uuid_eqb_eq in He. congruence.
+  - intros H. destruct (uuid_eqb a b) eqn:E; [apply uuid_eqb_eq in E; contradiction|reflexivity].
+Qed.
+
+Lemma find_app_store apps a u :
+  find_app (store_row apps a) u = if uuid_eqb (app_uuid a) u then Some a else find_app apps u.
+Proof.
+  unfold store_row. destruct (find_app apps (app_uuid a)) as [a0|] eqn:Ef.
+  - rewrite find_app_map.
+    2: { intros x. destruct (uuid_eqb (app_uuid x) (app_uuid a)) eqn:E; [apply uuid_eqb_eq in E; congruence|reflexivity]. }
+    destruct (uuid_eqb (app_uuid a) u) eqn:E.
+    + apply uuid_eqb_eq in E. subst u. rewrite Ef. cbn [option_map].
+      apply find_app_Some in Ef. destruct Ef as [_ Ef]. rewrite Ef, uuid_eqb_refl. reflexivity.
+    + destruct (find_app apps u) as [x|] eqn:Ex; [|reflexivity]. cbn [option_map].
+      apply find_app_Some in Ex. destruct Ex as [_ Ex]. rewrite Ex.
+      destruct (uuid_eqb u (app_uuid a)) eqn:E2; [apply uuid_eqb_eq in E2; apply uuid_eqb_neq in E; congruence|reflexivity].
+  - rewrite find_app_app. unfold find_app at 2. cbn [find].
+    destruct (uuid_eqb (app_uuid a) u) eqn:E.
+    + apply uuid_eqb_eq in E. subst u. rewrite Ef. reflexivity.
+    + destruct (find_app apps u); reflexivity.
+Qed.
+
+Lemma In_store_old apps a x : In x apps -> app_uuid x <> app_uuid a -> In x (store_row apps a).
+Proof.
+  intros Hi Hn. unfold store_row. destruct (find_app apps (app_uuid a)).
+  - apply in_map_iff. exists x. split; [|exact Hi]. apply uuid_eqb_neq in Hn. rewrite Hn. reflexivity.
+  - apply in_or_app. left. exact Hi.
+Qed.
+
+Lemma In_store_inv apps a x : In x (store_row apps a) -> x = a \/ (In x apps /\ app_uuid x <> app_uuid a).
+Proof.
+  unfold store_row. destruct (find_app apps (app_uuid a)) eqn:Ef.
+  - intros Hi. apply in_map_iff in Hi. destruct Hi as [y [Hy Hi]].
+    destruct (uuid_eqb (app_uuid y) (app_uuid a)) eqn:E; [left; congruence|right].
+    subst y. split; [exact Hi|apply uuid_eqb_neq; exact E].
+  - intros Hi. apply in_app_or in Hi. destruct Hi as [Hi|[<-|[]]]; [right|left; reflexivity].
+    split; [exact Hi|]. intros He. apply (find_app_None _ _ Ef). rewrite <- He. apply in_map. exact Hi.
+Qed.
+
+(* rows and trackers of other uuids are exactly those of before *)
+Definition others_kept (t t' : tower) (uuid : N * N) : Prop :=
+  (forall a, app_uuid a <> uuid -> (In a (db_apps t) <-> In a (db_apps t'))) /\
+  (forall k, trk_uuid k <> uuid -> (In k (db_trks t) <-> In k (db_trks t'))).
+
+Lemma In_delete_one_app apps uuid a :
+  In a (filter (fun x => negb (mem_uuid (app_uuid x) [uuid])) apps) <-> In a apps /\ app_uuid a <> uuid.
+Proof.
+  rewrite filter_In. unfold mem_uuid. cbn [existsb]. rewrite orb_false_r, negb_true_iff, uuid_eqb_neq. reflexivity.
+Qed.
+
+Lemma In_delete_one_trk trks uuid k :
+  In k (filter (fun x => negb (mem_uuid (trk_uuid x) [uuid])) trks) <-> In k trks /\ trk_uuid k <> uuid.
+Proof.
+  rewrite filter_In. unfold mem_uuid. cbn [existsb]. rewrite orb_false_r, negb_true_iff, uuid_eqb_neq. reflexivity.
+Qed.
+
+Lemma authenticate_Some' t signer u : authenticate t signer = Some u -> signer = Some u.
+Proof.
+  unfold authenticate. destruct signer as [v|]; [|discriminate].
+  destruct (amem (gk_users t) v); [|discriminate]. intros H. injection H as ->. reflexivity.
+Qed.
+
+(* the shape of a successful add_appointment *)
+Lemma w_add_appointment_inner sc t signer loc b delay sig r t' :
+  w_add_appointment sc t signer loc b delay sig = Ok r t' ->
+  (t' = t /\ match r with AddOk _ _ _ _ => False | _ => True end) \/
+  exists u ui av t1,
+    signer = Some u /\ gk_get t u = Some ui /\ gk_height t < u_expiry ui /\
+    find_trk (db_trks t) (loc, u) = None /\
+    same_but_users t t1 /\
+    r = AddOk (w_height t) sig av (u_expiry ui) /\
+    (match ti_get (w_cache t) loc with
+     | Some d => w_store_triggered sc t1 (mk_app loc u b delay sig (w_height t)) d
+     | None => w_store_appointment t1 (mk_app loc u b delay sig (w_height t))
+     end) = Ok tt t'.
+Proof.
+  unfold w_add_appointment.
+  destruct (authenticate t signer) as [u|] eqn:Ea; [|intros H; injection H as <- <-; left; split; [reflexivity|exact I]].
+  apply authenticate_Some' in Ea.
+  destruct (gk_get t u) as [ui|] eqn:Eg; [|discriminate].
+  destruct (N.leb (u_expiry ui) (gk_height t)) eqn:El; [intros H; injection H as <- <-; left; split; [reflexivity|exact I]|].
+  apply N.leb_gt in El.
+  destruct (find_trk (db_trks t) (loc, u)) eqn:Ek; [intros H; injection H as <- <-; left; split; [reflexivity|exact I]|].
+  destruct (gk_add_update_appointment t u (loc, u) (b_len b)) as [charged t1|] eqn:Ec; cbn [bind]; [|discriminate].
+  apply add_update_appointment_spec in Ec. destruct Ec as [Hsame Hnone].
+  destruct charged as [av|]; [|intros H; injection H as <- <-; left; split; [apply Hnone; reflexivity|exact I]].
+  assert (Hc : w_cache t = w_cache t1) by apply Hsame. rewrite <- Hc.
+  cbn [a_start].
+  match goal with |- bind ?X _ = _ -> _ => destruct X as [[] t2|] eqn:Est end; cbn [bind]; [|discriminate].
+  intros H. injection H as <- <-. right. exists u, ui, av, t1.
+  split; [exact Ea|]. split; [exact Eg|]. split; [exact El|]. split; [exact Ek|].
+  split; [exact Hsame|]. split; [reflexivity|exact Est].
+Qed.
+
+Lemma new_trk_uuid uuid d p s : trk_uuid (new_trk uuid d p s) = uuid.
+Proof. destruct uuid. reflexivity. Qed.
+
+(* store_triggered_appointment for a row that has no tracker yet *)
+Lemma store_triggered_spec sc t1 a d t' :
+  find_trk (db_trks t1) (app_uuid a) = None ->
+  w_store_triggered sc t1 a d = Ok tt t' ->
+  same_but_rows t1 (set_rpc_log (set_car_memo t' (car_memo t1)) (rpc_log t1)) /\ w_height t' = w_height t1 /\
+  others_kept t1 t' (app_uuid a) /\
+  match decrypt (a_blob a) d with
+  | None => dropped t' (app_uuid a) /\ rpc_log t' = rpc_log t1 /\ car_memo t' = car_memo t1
+  | Some p =>
+      let s := breach_status sc t1 p in
+      rpc_log t' = breach_events sc t1 p ++ rpc_log t1 /\ car_memo t' = breach_memo sc t1 p /\
+      (status_accepted s = true ->
+       find_app (db_apps t') (app_uuid a) = Some a /\ responded t' (app_uuid a) d p s) /\
+      (status_rejected s = true -> dropped t' (app_uuid a)) /\
+      (status_accepted s = false -> status_rejected s = false ->
+       find_app (db_apps t') (app_uuid a) = Some a /\ find_trk (db_trks t') (app_uuid a) = None)
+  end.
+Proof.
+  intros Hnt. unfold w_store_triggered.
+  destruct (decrypt (a_blob a) d) as [p|].
+  - destruct (w_store_appointment t1 a) as [[] t2|] eqn:Est; cbn [bind]; [|discriminate].
+    apply store_appointment_spec in Est. subst t2.
+    set (t2 := set_db_apps t1 (store_row (db_apps t1) a)).
+    destruct (r_handle_breach sc t2 (app_uuid a) d p) as [s t3|] eqn:Er; cbn [bind]; [|discriminate].
+    apply handle_breach_spec in Er. destruct Er as [Hs [Hc [Hl [Hm Hk]]]].
+    change (breach_status sc t2 p) with (breach_status sc t1 p) in Hs.
+    change (breach_events sc t2 p) with (breach_events sc t1 p) in Hl.
+    change (breach_memo sc t2 p) with (breach_memo sc t1 p) in Hm.
+    change (rpc_log t2) with (rpc_log t1) in Hl.
+    assert (Hfa : find_app (db_apps t2) (app_uuid a) = Some a).
+    { cbn [t2 db_apps set_db_apps]. rewrite find_app_store, uuid_eqb_refl. reflexivity. }
+    unfold breach_trks in Hk. change (db_trks t2) with (db_trks t1) in Hk. rewrite Hnt, Hfa in Hk.
+    assert (Ha3 : db_apps t3 = store_row (db_apps t1) a) by (symmetry; apply Hc).
+    unfold same_core in Hc. cbn [t2 cfg gk_users gk_height db_users db_apps w_height w_cache r_index car_height reorged set_db_apps] in Hc.
+    rewrite <- Hs.
+    (* the rows / trackers of other uuids after handle_breach *)
+    assert (Hoth3 : others_kept t1 t3 (app_uuid a)).
+    { split.
+      - intros x Hx. rewrite Ha3. split; [intros Hi; apply In_store_old; assumption|].
+        intros Hi. apply In_store_inv in Hi. destruct Hi as [->|[Hi _]]; [contradiction|exact Hi].
+      - intros k Hku. rewrite Hk. destruct (status_accepted s); [|reflexivity].
+        split; [intros Hi; apply in_or_app; left; exact Hi|].
+        intros Hi. apply in_app_or in Hi. destruct Hi as [Hi|[<-|[]]]; [exact Hi|].
+        rewrite new_trk_uuid in Hku. contradiction. }
+    destruct (status_rejected s) eqn:Hrej.
+    + cbn [gk_delete_appointments]. intros H. injection H as <-.
+      split; [unfold same_but_rows; cbn; intuition congruence|].
+      split; [cbn; symmetry; apply Hc|].
+      split.
+      { destruct Hoth3 as [H1 H2]. split.
+        - intros x Hx. cbn [db_apps db_delete_apps set_db_apps set_db_trks]. rewrite In_delete_one_app, (H1 x Hx). tauto.
+        - intros k Hku. cbn [db_trks db_delete_apps set_db_apps set_db_trks]. rewrite In_delete_one_trk, (H2 k Hku). tauto. }
+      split; [exact Hl|]. split; [exact Hm|].
+      split; [intros Ha; rewrite (accepted_not_rejected _ Ha) in Hrej; discriminate|].
+      split; [|intros _ H; discriminate].
+      intros _. split.
+      * cbn [db_apps db_delete_apps set_db_apps set_db_trks]. apply find_app_deleted. cbn. rewrite uuid_eqb_refl. reflexivity.
+      * cbn [db_trks db_delete_apps set_db_apps set_db_trks]. apply find_trk_deleted. cbn. rewrite uuid_eqb_refl. reflexivity.
+    + intros H. injection H as <-.
+      split; [unfold same_but_rows; cbn; intuition congruence|].
+      split; [symmetry; apply Hc|]. split; [exact Hoth3|].
+      split; [exact Hl|]. split; [exact Hm|].
+      rewrite Ha3, find_app_store, uuid_eqb_refl.
+      split; [|split; [intros H; discriminate|]].
+      * intros Ha. split; [reflexivity|]. rewrite Ha in Hk.
+        exists (new_trk (app_uuid a) d p s). split; [rewrite Hk; apply in_or_app; right; left; reflexivity|].
+        split; [apply new_trk_uuid|]. repeat split. apply status_of_new_trk. exact Ha.
+      * intros Ha _. split; [reflexivity|]. rewrite Ha in Hk. rewrite Hk. exact Hnt.
+  - destruct (find_app (db_apps t1) (app_uuid a)) eqn:Ef.
+    + cbn [gk_delete_appointments]. intros H. injection H as <-.
+      split; [repeat split|]. split; [reflexivity|]. split.
+      { split.
+        - intros x Hx. cbn [db_apps db_delete_apps set_db_apps set_db_trks]. rewrite In_delete_one_app. tauto.
+        - intros k Hku. cbn [db_trks db_delete_apps set_db_apps set_db_trks]. rewrite In_delete_one_trk. tauto. }
+      split; [|split; reflexivity]. split.
+      * cbn [db_apps db_delete_apps set_db_apps set_db_trks]. apply find_app_deleted. cbn. rewrite uuid_eqb_refl. reflexivity.
+      * cbn [db_trks db_delete_apps set_db_apps set_db_trks]. apply find_trk_deleted. cbn. rewrite uuid_eqb_refl. reflexivity.
+    + intros H. injection H as <-.
+      split; [repeat split|]. split; [reflexivity|]. split; [split; intros; reflexivity|].
+      split; [split; assumption|split; reflexivity].
+Qed.
